@@ -421,6 +421,23 @@ pub fn fault_histories(tier: &str) -> Vec<FaultHistory> {
             ],
         },
     ];
+    // a drop that changes reads, with a watermark that lets the version-history maintenance remove old
+    // version files after the new version is installed; keys ascend, so L0 stays disjoint (FIFO's
+    // precondition) whichever op is skipped
+        v.push(FaultHistory {
+            // FIFO drop (Choice::Drop path of the compaction worker) on a standard and on a blob tree
+            name: "fifo-drop".into(),
+            cfg: TreeCfg::small(crate::driver::keys_abc()),
+            ops: vec![
+                Op::Put { k: 0, big: false },
+                fl.clone(),
+                Op::Put { k: 1, big: false },
+                fl.clone(),
+                Op::Fifo { limit: 1, ttl: None, w: Wm::Tight },
+                Op::Put { k: 2, big: false },
+                fl.clone(),
+            ],
+        });
     if tier != "quick" {
         v.push(FaultHistory {
             name: "leveled-moves-and-merges".into(),
@@ -449,20 +466,6 @@ pub fn fault_histories(tier: &str) -> Vec<FaultHistory> {
                 fl.clone(),
                 Op::Clear,
                 Op::Put { k: 0, big: false },
-                fl.clone(),
-            ],
-        });
-        v.push(FaultHistory {
-            // FIFO drop (Choice::Drop path of the compaction worker) on a standard and on a blob tree
-            name: "fifo-drop".into(),
-            cfg: TreeCfg::small(crate::driver::keys_abc()),
-            ops: vec![
-                Op::Put { k: 0, big: false },
-                fl.clone(),
-                Op::Put { k: 1, big: false },
-                fl.clone(),
-                Op::Fifo { limit: 1, ttl: None, w: Wm::Tight },
-                Op::Put { k: 2, big: false },
                 fl.clone(),
             ],
         });
